@@ -204,4 +204,35 @@ theorem AllInv.one_success_wakeup {w : World} (h : AllInv w) {e1 e2 : HTag} (h1 
     | event k a2 f2 => rw [f1] at f2; cases f2; exact hon.elim
     | grant f' g' g2 _ _ _ => exact h.g.gu e1 h1 e2 h2 g1 g2 (hb1.trans hb2.symm) (noEx_not _)
 
+/-- the actions on which `dispatch` resumes a suspended process -/
+def isResuming (a : Nat) : Prop :=
+  a = aTime ∨ a = aProc ∨ a = aEvent ∨ a = aRes ∨ a = aPreempt ∨ a = aCond ∨ a = aIntr ∨ a = aResume
+
+/-- whatever pending event would resume `p` with SUCCESS is the legitimate wake-up of the call `p` is suspended in -/
+theorem AllInv.success_resume {w : World} (h : AllInv w) {e : HTag} (he : e ∈ w.ev.pending) (hc : e.item.c = 0)
+    (hk : isResuming e.item.a) {p : Pid} (hb : e.item.b = p + 1) : isWake e.item.a ∧ Cause w e p := by
+  have hnz := h.g.nonzero he hc
+  have hw : isWake e.item.a := by
+    rcases hk with ha | ha | ha | ha | ha | ha | ha | ha
+    · exact Or.inl ha
+    · exact Or.inr (Or.inl ha)
+    · exact Or.inr (Or.inr (Or.inl ha))
+    · exact Or.inr (Or.inr (Or.inr (Or.inl ha)))
+    · exact absurd ha hnz.2.2
+    · exact Or.inr (Or.inr (Or.inr (Or.inr ha)))
+    · exact absurd ha hnz.1
+    · exact absurd ha hnz.2.1
+  exact ⟨hw, h.success_cause he hc hw hb⟩
+
+/-- a process suspended in `hold` is resumed with SUCCESS only by the timer that hold armed -/
+theorem AllInv.hold_success_only_own_timer {w : World} (h : AllInv w) {e : HTag} (he : e ∈ w.ev.pending)
+    (hc : e.item.c = 0) (hk : isResuming e.item.a) {p : Pid} (hb : e.item.b = p + 1) {k : Nat}
+    (hf : (w.proc p).blocked = some (.hold k)) : e.item.a = aTime ∧ e.key = k := by
+  obtain ⟨_, c⟩ := h.success_resume he hc hk hb
+  cases c with
+  | hold a f => rw [hf] at f; exact ⟨a, (Frame.hold.inj (Option.some.inj f)).symm⟩
+  | proc q a f => rw [hf] at f; cases f
+  | event q a f => rw [hf] at f; cases f
+  | grant f' g _ f hon _ => rw [hf] at f; cases f; exact hon.elim
+
 end CimbaModel.Sim.S3
